@@ -2,7 +2,7 @@
 From Coq Require Import NArith List Bool Arith.
 From FitV Require Import Model.Values Model.Bytes Model.Crc Model.IO Model.Header Model.Route Model.Decode Model.Components
   Gen.Consts Spec.CrcSpec Spec.Burst Spec.Integrity Spec.Grammar
-  Proofs.C04Crc Proofs.C04IO Proofs.C04Verdict Proofs.C04Corrupt Proofs.C04Header Proofs.C04Main.
+  Proofs.C04Crc Proofs.C04IO Proofs.C04Verdict Proofs.C04Corrupt Proofs.C04Header Proofs.C04Main Proofs.C04Agree.
 Import ListNotations.
 Local Open Scope N_scope.
 
@@ -59,4 +59,12 @@ Proof.
   split; [vm_compute; discriminate|]. split; [vm_compute; reflexivity|]. split; [reflexivity|]. split; [reflexivity|].
   cbv zeta. split; [vm_compute; repeat constructor|]. split; [reflexivity|]. split; [vm_compute; discriminate|].
   split; [vm_compute; discriminate|]. split; vm_compute; reflexivity.
+Qed.
+
+Lemma ex_integrity_error :
+  exists r, decode no_opts MFull g_init (ex_rd (xorl ex12 (burst 25 192 1))) 40 = TDone r /\ dr_err r = Some EFileCRC /\
+            is_integrity EFileCRC = true /\ (measure (ex_rd (xorl ex12 (burst 25 192 1))) < 40)%nat.
+Proof.
+  eexists. split; [vm_compute; reflexivity|]. split; [reflexivity|]. split; [reflexivity|].
+  apply Nat.ltb_lt. vm_compute. reflexivity.
 Qed.
